@@ -173,7 +173,7 @@ theorem indexOf_joinSegs_some (root : Bytes) (hroot : cSlash ∉ root) (pre : Li
   | cons s rest ih =>
     have hs := segText_facts s (hsegs s (by simp))
     simp only [List.cons_append, joinSegs_cons]
-    simp only [List.cons_append, indexOf, List.isPrefixOf, beq_self_eq_true, Bool.true_and]
+    simp only [indexOf, List.isPrefixOf, beq_self_eq_true, Bool.true_and]
     rw [isPrefixOf_seg root s _ hroot (joinSegs_head _), hno s (by simp)]
     simp only [Bool.false_eq_true, if_false]
     rw [indexOf_skip (cSlash :: root) s _ cSlash root rfl hs.2.2,
@@ -218,7 +218,7 @@ theorem stripRoot_some (root : Bytes) (hroot : cSlash ∉ root) (pre : List Byte
       have : ¬ ((joinSegs pre ++ cSlash :: root ++ ([] ++ joinSegs (p :: ps))).length
           = (joinSegs pre).length + root.length + 1) := by
         simp [joinSegs_cons, List.length_append]; omega
-      simp [this, joinSegs_cons]
+      simp [joinSegs_cons]
   | cons c x' =>
     have hc : c ≠ cSlash := fun e => hskf.2.2 (by simp [e])
     have : ¬ ((joinSegs pre ++ cSlash :: root ++ (c :: x' ++ joinSegs post)).length
@@ -519,7 +519,7 @@ theorem expectedText_eq (b : Base) (hwf : b.wf = true) (root rp : Bytes) (q : Op
         ++ expectedPath b.segs root rp ++ queryPart q := by
   obtain ⟨auth, segs, trail⟩ := b
   cases auth with
-  | none => simp [expectedText, Base.scheme, Base.host]
+  | none => simp [expectedText, Base.scheme]
   | some a =>
     simp only [Base.wf, Authority.wf, Bool.and_eq_true] at hwf
     have : a.scheme.map lowerByte ≠ [] := by
@@ -603,5 +603,55 @@ theorem formatQueryUrl_no_panic (hostUrl : URL) (root rp : Bytes) (q : Option By
   · simp
   · simp
   · next h => exact absurd h (parse_no_panic _)
+
+/-- The whole pipeline (`url.Parse` of the base, `formatQueryUrl`, re-parse in `http.NewRequest`) for
+whatever the `strings.Index` block leaves of the context (`segs'`). -/
+theorem requestUrl_pipeline (b : Base) (root rp : Bytes) (q : Option Bytes)
+    (hwf : b.wf = true) (hrp : resourcePathOk root rp = true) (hq : queryText (q.getD []) = true)
+    (segs' : List Bytes) (hsegs' : ∀ s ∈ segs', segText s = true)
+    (hstrip : stripRoot (joinSegs b.segs) root = .ok (joinSegs segs'))
+    (hd : NoDotSegments (joinSegs segs' ++ rp)) :
+    ∃ base u r', parse b.text = .ok base ∧ requestUrl base root rp q = .ok u ∧
+      joinSegs segs' ++ rp = cSlash :: r' ∧ ParsedAs u b.scheme b.host (cSlash :: r') q ∧
+      AuthGood b.scheme b.host := by
+  obtain ⟨base, hparse, hsch, hhost, hesc, hauth⟩ := base_parse b hwf
+  have hsegs : ∀ s ∈ b.segs, segText s = true := by
+    simp only [Base.wf, Bool.and_eq_true, List.all_eq_true] at hwf; exact hwf.2
+  obtain ⟨hroot, hp, tail, hrpe, _⟩ := rp_shape root rp hrp
+  obtain ⟨u1, hu1, hpa1⟩ := formatQueryUrl_ok base b.segs b.trailingSlash root rp q hsegs hesc hrp hq segs' hsegs'
+    hstrip hd
+  rw [hrpe] at hp
+  obtain ⟨r', he', hh', hp'⟩ := expected_shape segs' hsegs' root tail hroot hp
+  rw [hsch, hhost] at hpa1
+  have hexp : joinSegs segs' ++ rp = cSlash :: r' := by rw [← he', hrpe]
+  have hpa1' : ParsedAs u1 b.scheme b.host (cSlash :: r') q := by rw [← hexp]; exact hpa1
+  obtain ⟨u2, hu2, hpa2, _⟩ := httpRequestUrl_ok u1 _ _ r' q hpa1' hauth hp' hh' hq
+  have hreq : requestUrl base root rp q = .ok u2 := by simp only [requestUrl, hu1, hu2]
+  exact ⟨base, u2, r', hparse, hreq, hexp, hpa2, hauth⟩
+
+/-- when guard 2 fails (inside the property's quantifier) the context is NOT cut -/
+theorem stripRoot_guard2_fails (root : Bytes) (hroot : cSlash ∉ root) (segs : List Bytes)
+    (hsegs : ∀ s ∈ segs, segText s = true) (hex : RootOnlyLast segs root)
+    (hng : ¬ FirstRootIsLast segs root) :
+    stripRoot (joinSegs segs) root = .ok (joinSegs segs) ∧ segs.getLast? = some root := by
+  simp only [FirstRootIsLast, Classical.not_imp, Classical.not_forall] at hng
+  obtain ⟨hlast, s, hs, hpre⟩ := hng
+  have hpre' : root.isPrefixOf s = true := by
+    cases h : root.isPrefixOf s with
+    | true => rfl
+    | false => exact absurd h hpre
+  refine ⟨?_, hlast⟩
+  rcases first_split (fun s => root.isPrefixOf s) segs with hnone | ⟨pre, sk, post, rfl, hpren, hsk⟩
+  · have := hnone s (List.dropLast_subset _ hs)
+    simp [hpre'] at this
+  · rw [stripRoot_some root hroot pre sk post hsegs hpren hsk]
+    cases post with
+    | nil =>
+      rw [List.dropLast_concat] at hs
+      have := hpren s hs
+      rw [hpre'] at this; exact absurd this (by simp)
+    | cons p ps =>
+      have hne : sk ≠ root := hex sk (mem_dropLast_mid pre sk p ps)
+      simp [hne]
 
 end Restli.HttpUrl
